@@ -366,6 +366,22 @@ def b_used_from(V, st, args, kwargs, node):
     return SV(BOOL, z3.ForAll([x], z3.Implies(z3.Select(a.z, x), z3.Contains(seq.z, z3.Unit(x)))))
 
 
+@_b('callable')
+def b_callable(V, st, args, kwargs, node):
+    v = args[0]
+    if isinstance(v, MFn):
+        return SV(BOOL, z3.BoolVal(True))
+    if v is MNONE:
+        return SV(BOOL, z3.BoolVal(False))
+    if isinstance(v, SV) and v.t == ANY:
+        return SV(BOOL, V.uf('callable', [sort_of(ANY)], z3.BoolSort())(v.z))
+    if isinstance(v, SV) and isinstance(v.t, OptT) and v.t.inner == ANY:
+        inner = strip_opt(v)
+        return SV(BOOL, z3.And(z3.Not(opt_is_none(v.t, v.z)),
+                               V.uf('callable', [sort_of(ANY)], z3.BoolSort())(inner.z)))
+    raise Unsupported('callable() of %r' % (v,))
+
+
 @_b('getattr')
 def b_getattr(V, st, args, kwargs, node):
     if len(args) >= 2 and isinstance(args[1], SV):
